@@ -5,6 +5,7 @@ import VProofs.C05
 import VProofs.C06
 import VProofs.C15
 import VProofs.C16
+import VProofs.Lemmas.CliSafe
 /-!
 # C20 — Command-line tools agree with the library, line by line
 
@@ -39,12 +40,14 @@ def libLine (fl : PredictFlags) (p : Predictor) (filters : List PostFilter) (lin
     bindR (if fl.tagScores && fl.predictTags then printTagScores s3 else .ok []) fun ts =>
     .ok (w ++ ['\n'] ++ sc ++ ts)
 
+theorem libLine_eq : libLine = C20L.libLine' := rfl
+
 /-- reusing the sentence objects `s` and `s_orig` across lines is invisible: whatever state the loop is in, the bytes
 written for a line are exactly the specification block of that line -/
 theorem C20_line_eq_library (fl : PredictFlags) (p : Predictor) (filters : List PostFilter) (st : PredictState)
     (line : List Char) :
-    (predictLine fl p filters st line).map (·.out) = (libLine fl p filters line).map (st.out ++ ·) := by
-  sorry
+    (predictLine fl p filters st line).map (·.out) = (libLine fl p filters line).map (st.out ++ ·) :=
+  C20L.line_eq_library fl p filters st line
 
 /-- hence the whole output is the concatenation, in input order, of one block per input line (so: exactly one tokenised
 line per input line, an empty line for an empty or rejected input, and the same layout with and without `--no-norm`) -/
@@ -56,7 +59,10 @@ theorem C20_output_eq_blocks (cfg : Cfg) (fl : PredictFlags) (m : WModel) (p0 : 
       ∀ i, i < blocks.length →
         ∃ filters, buildPostFilters fl.wsconst ((clusters.drop i).headD []) = .ok filters ∧
           libLine fl { p0 with storeTagScores := fl.tagScores } filters ((splitLines stdin).getD i []) = .ok (blocks.getD i []) := by
-  sorry
+  rw [C20L.predictCli_eq, hp] at h
+  obtain ⟨st', hgo, hout⟩ := C20L.map_eq_ok h
+  obtain ⟨blocks, h1, h2, h3⟩ := C20L.go_blocks fl _ _ _ _ _ hgo
+  exact ⟨blocks, h1, by rw [← hout, h2]; rfl, h3⟩
 
 /-- the unescaped surfaces of the tokenised line concatenate to the original, un-normalised input line: parsing the line the
 tool wrote gives back exactly the input characters (well-formed model, NUL-free non-empty line, without tags) -/
@@ -65,15 +71,34 @@ theorem C20_surfaces_concat (cfg : Cfg) (m : WModel) (hm : WFModel m) (p : Predi
     (hfg : fl.tagScores = false) (filters : List PostFilter) (hfil : ∀ f ∈ filters, ∃ t, f = PostFilter.ws t)
     (line : List Char) (hne : line ≠ []) (hnul : '\x00' ∉ line) :
     ∃ w, libLine fl p filters line = .ok (w ++ ['\n']) ∧ ∃ q, parseTokenized w = .ok q ∧ q.text = line := by
-  sorry
+  rw [libLine_eq]
+  exact C20L.surfaces_concat cfg m hm p hp fl hft hfs hfg filters hfil line hne hnul
 
-/-- no input line and no flag combination makes `predict` crash: for a well-formed model (and tag models), every input
-stream and valid cluster data the tool returns output, never a panic -/
+/-- no input line and no flag combination makes `predict` crash: for a well-formed model (and tag models) that the predictor
+accepts, every input stream and valid cluster data the tool returns output, never a panic.
+(Restated on request: the predictor is taken as given — whether `Predictor::new` accepts a model is C11's business, and a
+start-up error is not an input line crashing the tool; `fl.predictTags = true → cfg.tagPred = true` follows from `hp`.) -/
 theorem C20_no_crash (cfg : Cfg) (m : WModel) (hm : WFModel m) (ht : WFTags m) (fl : PredictFlags)
-    (hcfg : fl.predictTags = true → cfg.tagPred = true)
+    (p0 : Predictor) (hp : Predictor.new cfg m fl.predictTags = .ok p0)
     (hws : ∀ c ∈ fl.wsconst, c ∈ ['D', 'R', 'H', 'T', 'K', 'O'])
     (stdin : List Char) (clusters : List (List Nat)) :
-    ∃ out, predictCli cfg fl m stdin clusters = .ok out := by
-  sorry
+    ∃ out, predictCli cfg fl m stdin clusters = .ok out :=
+  C20L.cli_total cfg m hm ht fl p0 hp hws stdin clusters
+
+/-! ## non-vacuity: the well-formed model of `C01.lean` (it has a tag model, see `C06.lean`) through `predictCli`, two
+non-empty lines and an empty one -/
+
+/-- `--no-norm --predict-tags --scores --tag-scores --wsconst D`: per line the tokenised line, the score block and the
+tag-score block; the empty line gives an empty line -/
+example : predictCli {} ⟨true, true, true, true, ['D']⟩ C01_exModel "aba\n\nab".toList [] =
+    .ok "a/y ba\n0:ab 1\n1:ba 0\n\na\tx:0,y:1\nba\n\n\na/y b\n0:ab 1\n\na\tx:0,y:1\nb\n\n".toList := by decide
+
+/-- with normalisation (and a CRLF line end): the line is written from the original characters (the space escaped), the
+scores are printed with the normalised ones -/
+example : predictCli {} ⟨false, false, true, false, ['D']⟩ C01_exModel "a b\r\n12".toList [] =
+    .ok "a\\ b\n0:ａ  -6\n1: ｂ -7\n\n12\n0:１２ -10\n\n".toList := by decide
+
+/-- the hypotheses of `C20_no_crash` / `C20_output_eq_blocks` on the predictor are satisfiable for this model -/
+example : (Predictor.new {} C01_exModel true).isOk = true := by decide
 
 end V
